@@ -475,7 +475,8 @@ sys_prop(
     ["C13_casts_are_guarded_by_the_type_id", "C13_insertion_loser_dropped_at_once", "C13_code_insert_keeps_the_first",
      "C13_remove_drops_exactly_the_removed", "C13_take_hands_over_then_the_caller_drops",
      "C13_clear_drops_every_entry", "C13_entries_reachable_through_handles_survive_loads",
-     "C13_old_value_is_replaced_under_the_write_lock", "C13_lookup_is_by_type"],
+     "C13_old_value_is_replaced_under_the_write_lock", "C13_lookup_is_by_type",
+     "C13_code_reload_swaps_whole_same_typed_values"],
     ["Entry", "CacheMap", "LocalMap", "Private"],
     ["value-not-dropped-exactly-once", "handle-changed", "torn-read", "guard-not-pinned", "loser-not-dropped",
      "racers-disagree", "presence-flipped", "handle-moved"], mode="all",
